@@ -953,15 +953,20 @@ def mutate(case, rnd):
 
 LEVEL_TEXT = ('Machine-checked proofs (Coq) about an executable model of SmodelsConvert/SmData that emits call-for-call what the C++ emits: '
               'the atom-map invariant over all call sequences (c02_map), the exact error characterisation of the converter composed with the '
-              'smodels writer\'s acceptance conditions (c02_errors), cost / shown / external lemmas, and the semantic building blocks '
-              '(see notes/C02.md for what is full and what is _partial). The model is tied to the code by differential correspondence '
+              'smodels writer\'s acceptance conditions (c02_errors), the cost statement (c02_cost), and the END-TO-END semantic equivalence of one '
+              'whole step with the extensions on or off (c02_equiv_partial2): for rule / weight rule / minimize / output / external directives followed by '
+              'endStep there is a bijection between the answer sets of the input program and those of the emitted program (false atom false), '
+              'agreeing on mapped atoms, with the same shown names and per-priority costs equal up to a constant; built from definitional extension '
+              '(c02_defext), the weight-rule split (c02_wrule_shape, c02_equiv_weight), output aux atoms (c02_output_*) and externals-as-rules '
+              '(c02_external_*: choice rule / facts without the extensions, passed through with them). The model is tied to the code by differential correspondence '
               '(recorder behind the real SmodelsConvert, real SmodelsOutput, get/getName/maxAtom) and an independent brute-force semantic oracle '
               'that compares the answer sets, shown names, externals and costs of the input with those of what the implementation emitted, '
               'also through the real lpconvert binary.')
 LEVEL_NOTE = ('Trusted: Coq kernel/vm_compute, extraction+driver (cross-checked), harness, translator, the reference semantics (Sem.v / python). '
-              'Full: c02_map, c02_errors, c02_cost, c02_cost_sign, c02_rename_iso, c02_constraint_false. The end-to-end bijection of answer sets is '
-              'proved only for the fragment of plain rules (c02_equiv_partial); weight-rule split, aux atoms of outputs, externals-as-rules and the '
-              'shown-name/external corollaries are not composed (notes/C02.md) and are covered by the brute-force oracle only.')
+              'Full: c02_map, c02_errors, c02_cost, c02_cost_sign, c02_rename_iso, c02_constraint_false, c02_defext, c02_wrule_shape, c02_equiv_weight, '
+              'c02_output_shape/value/symbols, c02_external_flags/rules/sem/pass. The composed bijection c02_equiv_partial2 covers one step, ext on or off '
+              '(any mix of rules, weight rules, minimize, outputs, externals); not composed in Coq and covered by the brute-force oracle only: '
+              'heuristic/edge directives (ext on) and several steps (notes/C02.md).')
 TECHNIQUE = 'Coq invariant/refinement proofs about an executable model + differential correspondence + brute-force semantic oracle'
 DESIGN_REF = 'DESIGN.md section 5, C02'
 READY = True
